@@ -19,3 +19,5 @@ import Dsi.Props.C05
 import Dsi.Props.EndToEnd
 import Dsi.Props.C15
 import Dsi.Props.C20
+import Dsi.Props.Equiv
+import Dsi.Props.Transport
